@@ -201,6 +201,10 @@ def main():
     fns = anchored_functions(syn)
     if only:
         fns = {k: v for k, v in fns.items() if only in k}
+    if "--status" in args:
+        want = args[args.index("--status") + 1]
+        prev = json.load(open(os.path.join(VERIF, ".cache", "alpha_sweep.json")))
+        fns = {k: v for k, v in fns.items() if prev.get(k, [None])[0] == want}
     print(f"{len(fns)} anchored functions")
     selftest.make_copy_head()
     slots = queue.Queue()
@@ -250,7 +254,10 @@ def main():
     for v in results.values():
         c[v[0]] = c.get(v[0], 0) + 1
     print("alpha sweep:", c)
-    json.dump({k: list(v) for k, v in results.items()}, open(os.path.join(VERIF, ".cache", "alpha_sweep.json"), "w"), indent=1)
+    allp = os.path.join(VERIF, ".cache", "alpha_sweep.json")
+    merged = json.load(open(allp)) if os.path.exists(allp) and ("--status" in args or only) else {}
+    merged.update({k: list(v) for k, v in results.items()})
+    json.dump(merged, open(allp, "w"), indent=1)
     return 1 if c.get("ALARM") else 0
 
 
